@@ -209,6 +209,17 @@ def install(M):
     pat(r'^<(Option|Result)<.*> as (std::ops::)?Try>::branch$', try_branch)
     pat(r'^<(Option|Result)<.*> as (std::ops::)?FromResidual(<.*>)?>::from_residual$', lambda I, r: r)
 
+    # ---------------- Chars / CharIndices views
+    def chars_as_str(I, it):
+        it = deref(it)
+        if hasattr(it, 'rest'):
+            return it.rest()
+        raise Unsupported('as_str on %r' % (type(it).__name__,))
+    reg('Chars::as_str', chars_as_str)
+    reg('CharIndices::as_str', chars_as_str)
+    reg('std::str::Chars::as_str', chars_as_str)
+    reg('std::str::CharIndices::as_str', chars_as_str)
+
     # ---------------- bool / Option / Result
     reg('core::bool::<impl bool>::then', lambda I, b, clo: Some(I.call_closure(Ptr([clo], 0), [])) if I.branch(b) else NONE())
     reg('core::bool::<impl bool>::then_some', lambda I, b, v: Some(v) if I.branch(b) else NONE())
